@@ -66,6 +66,9 @@ class Env(object):
         self.f_lower = names.index("lower")
         self.f_upper = names.index("upper")
         self.nfields = len(names)
+        # the bounds may be stored boxed (`Box<Bound>`) or inline: follow the declared field types
+        ftys = prog.adts[BSET].get("field_tys", [[]])[0]
+        self.boxed = [prog.ty_str(t).startswith("std::boxed::Box<") for t in ftys] if ftys else [True] * self.nfields
 
     # ---- construction of abstract inputs
     def bound(self, kind, pred, tok=None):
@@ -74,8 +77,8 @@ class Env(object):
 
     def bset(self, lower, upper):
         f = [None] * self.nfields
-        f[self.f_lower] = BoxV(Cell(lower))
-        f[self.f_upper] = BoxV(Cell(upper))
+        f[self.f_lower] = BoxV(Cell(lower)) if self.boxed[self.f_lower] else lower
+        f[self.f_upper] = BoxV(Cell(upper)) if self.boxed[self.f_upper] else upper
         return Adt(BSET, 0, f)
 
     # ---- decoding of results
